@@ -101,6 +101,26 @@ namespace rkverif {
       rkcommon::utility::OwnedArray<uint8_t> c(std::move(a));
       b = std::move(c);
     }
+
+    // instantiates every member of that array type that changes its storage (R-C15-8 reads their bodies)
+    void sync_owned(rkcommon::utility::OwnedArray<uint8_t> &a,
+                    const rkcommon::utility::OwnedArray<uint8_t> &b,
+                    std::vector<uint8_t> &v,
+                    uint8_t *p,
+                    size_t n)
+    {
+      a.resize(n, 0);
+      a.reset(p, n);
+      a.reset();
+      a = b;
+      a = v;
+      rkcommon::utility::OwnedArray<uint8_t> c(b);
+      rkcommon::utility::OwnedArray<uint8_t> d(v);
+      rkcommon::utility::OwnedArray<uint8_t> e(p, n);
+      a = c;
+      a = d;
+      a = e;
+    }
   }  // namespace c15x
 }  // namespace rkverif
 
